@@ -144,6 +144,7 @@ def _catalog():
     for nm in "grey_erosion grey_dilation opening closing white_tophat black_tophat".split():
         add(nm, "cpmorphology." + nm, "I", lambda a, f=getattr(M, nm): f(a, 1))
         add(nm + "+mask", "cpmorphology." + nm, "IM", lambda a, m, f=getattr(M, nm): f(a, 1, mask=m))
+        add(nm + "-r2", "cpmorphology." + nm, "I", lambda a, f=getattr(M, nm): f(a, 2))
     add("binary_shrink", "cpmorphology.binary_shrink", "B", M.binary_shrink)
     add("binary_shrink-it2", "cpmorphology.binary_shrink", "B", lambda b: M.binary_shrink(b, 2))
     add("binary_shrink_old", "cpmorphology.binary_shrink_old", "B", M.binary_shrink_old)
@@ -211,8 +212,15 @@ def _catalog():
     add("minimum_distance2", "cpmorphology.minimum_distance2", "",
         lambda: M.minimum_distance2(np.array([[0, 0], [0, 3], [3, 3], [3, 0]]), np.array([1.5, 1.5]),
                                     np.array([[6, 6], [6, 9], [9, 9], [9, 6]]), np.array([7.5, 7.5])))
-    add("distance2_to_line", "cpmorphology.distance2_to_line", "I",
+    add("distance2_to_line", "cpmorphology.distance2_to_line", "pqr", M.distance2_to_line)
+    add("distance2_to_line-rows", "cpmorphology.distance2_to_line", "I",
         lambda a: M.distance2_to_line(a[0, :2], a[1, :2], a[2, :2] + 1))
+    add("within_hull-pt", "cpmorphology.within_hull", "p",
+        lambda p: M.within_hull(p, np.array([[0, 0], [0, 30], [30, 30], [30, 0]])))
+    add("lines_intersect", "cpmorphology.lines_intersect", "pqr",
+        lambda p, q, r: M.lines_intersect(p, q, r, p + 1))
+    add("find_farthest", "cpmorphology.find_farthest", "p",
+        lambda p: M.find_farthest(p, np.array([[0, 0], [0, 30], [30, 30], [30, 0]])))
     add("distance2_to_line-2d", "cpmorphology.distance2_to_line", "I",
         lambda a: M.distance2_to_line(a[:3, :2], a[3:6, :2], a[6:9, :2] + 1))
     add("within_hull", "cpmorphology.within_hull", "I",
@@ -355,6 +363,9 @@ def _catalog_index(ctx):
 # =========================================================================== inputs
 
 ROLE_DTYPES = {
+    "p": ["float64", "float64", "float32", "int32", "int64"],
+    "q": ["float64", "float64", "float32", "int32", "int64"],
+    "r": ["float64", "float64", "float32", "int32", "int64"],
     "I": ["float64", "float64", "float64", "float32", "float32", "uint8", "int32", "int64"],
     "B": ["bool", "bool", "bool", "uint8", "int32", "int64", "float32", "float64"],
     "M": ["bool"],
@@ -363,8 +374,13 @@ ROLE_DTYPES = {
 LAYOUTS = ["C", "F", "view", "ro"]
 
 
+ROLES = "IBMLpqr"
+
+
 def _content(role, shape, rng):
     H, W = shape
+    if role in "pqr":
+        return np.round(rng.rand(2) * 20 + {"p": 0, "q": 3, "r": 7}[role], 0)
     if role == "I":
         import scipy.ndimage as nd
         a = nd.gaussian_filter(rng.rand(H, W), 1.0)
@@ -397,16 +413,26 @@ def _cast(role, a, dt):
     return a.astype(dt)
 
 
+def _slice_view(a):
+    """a as a non-contiguous view cut out of a larger array filled with other values"""
+    if a.ndim == 1:
+        big = np.zeros(a.shape[0] * 2 + 3, a.dtype)
+        big[...] = 7
+        big[1:1 + 2 * a.shape[0]:2] = a
+        return big[1:1 + 2 * a.shape[0]:2], big
+    big = np.zeros((a.shape[0] * 2 + 1, a.shape[1] * 2 + 3), a.dtype)
+    big[...] = 1 if a.dtype == bool else 7
+    big[1::2, 2:2 + 2 * a.shape[1]:2] = a
+    return big[1::2, 2:2 + 2 * a.shape[1]:2], big
+
+
 def _layout(a, lay):
     if lay == "C":
         return np.ascontiguousarray(a), None
     if lay == "F":
         return np.asfortranarray(a), None
     if lay == "view":
-        big = np.zeros((a.shape[0] * 2 + 1, a.shape[1] * 2 + 3), a.dtype)
-        big[...] = 1 if a.dtype == bool else 7
-        big[1::2, 2:2 + 2 * a.shape[1]:2] = a
-        return big[1::2, 2:2 + 2 * a.shape[1]:2], big
+        return _slice_view(a)
     b = np.ascontiguousarray(a).copy()
     b.setflags(write=False)
     return b, None
@@ -416,11 +442,11 @@ def build_pool(case, writable=False, only_keys=None):
     """the shared input arrays of a history: {key: array}, plus the big arrays views are cut from"""
     pool, bases = {}, {}
     for si, shape in enumerate(case["shapes"]):
-        for role in "IBML":
+        for role in ROLES:
             key = "%s%d" % (role, si)
             if only_keys is not None and key not in only_keys:
                 continue
-            rng = np.random.RandomState((case["seed"] * 8 + si * 4 + "IBML".index(role)) & 0x7FFFFFFF)
+            rng = np.random.RandomState((case["seed"] * 16 + si * 8 + ROLES.index(role)) & 0x7FFFFFFF)
             a = _cast(role, _content(role, shape, rng), case["dt"][key])
             lay = case["lay"][key]
             if writable and lay == "ro":
@@ -752,7 +778,7 @@ def _mk_case(ctx, rng, cat, calls=None, length=None, shapes=None):
     shapes = shapes or [[int(rng.randint(10, 17)), int(rng.randint(10, 17))], [int(rng.randint(10, 14)), int(rng.randint(10, 14))]]
     dt, lay = {}, {}
     for si in range(2):
-        for role in "IBML":
+        for role in ROLES:
             key = "%s%d" % (role, si)
             dt[key] = str(rng.choice(ROLE_DTYPES[role]))
             lay[key] = str(rng.choice(LAYOUTS))
@@ -891,8 +917,11 @@ def _check_one(case, out):
         if a.startswith("crash") or b.startswith("crash") or b == "missing":
             return "call %d (%s) crashed the interpreter: in history %s, fresh %s" % (k, name, a, b)
         if a != b:
-            return ("call %d (%s) depends on the call history: after %s it gives %s (%s), in a fresh interpreter %s (%s)"
-                    % (k, name, [c[0] for c in case["calls"][:k]], a[:16], rec.get("brief", rec.get("msg", ""))[:80],
+            prev = [c[0] for c in case["calls"][:k]]
+            how = ("depends on the call history: after %s" % prev) if prev else \
+                "depends on the state the process is in (global random generator / entropy): in this process"
+            return ("call %d (%s) %s it gives %s (%s), in a fresh interpreter %s (%s)"
+                    % (k, name, how, a[:16], rec.get("brief", rec.get("msg", ""))[:80],
                        b[:16], (ref or {}).get("brief", (ref or {}).get("msg", ""))[:80]))
     return None
 
@@ -910,7 +939,7 @@ def check(ctx, cases, outs):
             k = int(rng.randint(len(cases[ci]["calls"])))
             if k > 0:
                 picks.append((int(ci), k))
-            if len(picks) >= ctx.n(16, 120):
+            if len(picks) >= ctx.n(12, 120):
                 break
         from concurrent.futures import ThreadPoolExecutor
 
@@ -1002,6 +1031,7 @@ def compare(case, out, m):
         key = case["calls"][k][0]
         ent = fm[cat[key][1]]
         allowed = {gl[g] for g, _ in ent["fills"]}
+        allowed |= {n.split("#default:")[0] + "#defaults" for n in allowed if "#default:" in n}
         obs = set(rec.get("gchg", []))
         if not obs <= allowed:
             return "call %d (%s) changed module state its signature does not list: %s (signature: %s)" % (
@@ -1077,7 +1107,7 @@ def shrink_candidates(case):
             c = dict(case); c["lay"] = dict(case["lay"]); c["lay"][key] = "C"
             yield c
     for key in case["dt"]:
-        base = {"I": "float64", "B": "bool", "M": "bool", "L": "int32"}[key[0]]
+        base = {"I": "float64", "B": "bool", "M": "bool", "L": "int32"}.get(key[0], "float64")
         if case["dt"][key] != base:
             c = dict(case); c["dt"] = dict(case["dt"]); c["dt"][key] = base
             yield c
